@@ -23,17 +23,22 @@
                                              has probability 0 in every functional SCM
     * `cg_inconsistent_sound_partial`        'inconsistent' => probability 0, GIVEN that the witnessing pair is the same
                                              random variable on the event's support (Lemma 24 for that pair)
-    * `relabel_preserves_prob`               one relabelling step preserves the probability GIVEN the same hypothesis
+    * `cg_prob_partial`                      BOTH probability clauses, for every functional SCM, GIVEN the conclusion of Lemma 24
+                                             (`Lemma24For`) for each merge the construction actually performs on the input
+                                             (`cgTrace`): the whole loop is composed (support of the event is an invariant)
   -- OPEN: the unconditional probability clauses
   --   theorem cg_prob : makeCounterfactualGraph ordf G ev = .ok (g, some ev') → M.Compatible G → ν.Distinct →
   --       probEvent M ν ev' = probEvent M ν ev
   --   theorem cg_inconsistent_sound : makeCounterfactualGraph ordf G ev = .ok (g, none) → M.Compatible G → ν.Distinct →
   --       probEvent M ν ev = 0
-  -- need Lemma 24 of Shpitser–Pearl for the test as coded (`lemma24Holds`); not mechanised.  These clauses are
-  -- decided by correspondence + exact evaluation on sampled functional SCMs (harness/oracles/cf_fscm.py).
+  -- i.e. `cg_prob_partial` without its hypothesis `hL`: what is missing is exactly Lemma 24 of Shpitser–Pearl for the test as
+  -- coded:   lemma24Holds cf evk a b = true → (cf, evk) reachable from (G, ev) → M.Compatible G → Lemma24For M ν (evk, a, b).
+  -- Not mechanised.  These clauses are decided by correspondence + exact evaluation on sampled functional SCMs
+  -- (harness/oracles/cf_fscm.py).
 -/
 import Y0.Lemmas.CfGraph
 import Y0.Lemmas.CfFscm
+import Y0.Lemmas.CfCgSem
 
 namespace Y0.Cf
 open Relation MG
@@ -274,5 +279,93 @@ theorem cg_inconsistent_sound_partial (M : Model) (ν : BaseValues) (hν : ν.Di
         · exact hν n1 heq
         · exact hν n1 heq.symm
         · exact hs rfl
+
+/-! ## 3b. the probability clauses, relative to Lemma 24 for the merges that are performed -/
+
+/-- the merges `(event at that moment, a, b)` that `make_counterfactual_graph` performs on this input -/
+def cgTrace (ordf : List World → List World) (G : MG Name) (ev : Event) (topo : List Name) : List (Event × Var × Var) :=
+  traceOf (.run (cf0 G (ordf (extractInterventions ev.keys))) ev) (allPairs (ordf (extractInterventions ev.keys)) topo)
+
+open Fscm in
+/-- **Probability clauses of C18, relative form.**  Let `M` be any functional SCM and `ν` base values with `x ≠ x'`.  If for
+every merge the construction performs on this input the conclusion of Lemma 24 holds in `M` (`Lemma24For`: the two merged
+nodes agree wherever the other conjuncts of the current event hold), then
+  * the relabelled event has the same probability as the original event, and
+  * 'inconsistent' is reported only if the original event has probability 0.
+(The worlds are iterated as a duplicate-free list of non-empty subscript sets — what a Python set of frozensets of a
+non-empty `interventions` field is; the event is a dict whose values are named after their variables.) -/
+theorem cg_prob_partial (M : Model) (ν : BaseValues) (hν : ν.Distinct)
+    (ordf : List World → List World) (G : MG Name) (ev : Event) (topo : List Name)
+    (htopo : G.topologicalSort = .ok topo)
+    (hws : (ordf (extractInterventions ev.keys)).Nodup) (hwne : ∀ w ∈ ordf (extractInterventions ev.keys), w ≠ [])
+    (hnd : ev.keys.Nodup) (hwf : ∀ p ∈ ev, p.2.name = p.1.name)
+    (hL : ∀ t ∈ cgTrace ordf G ev topo, Lemma24For M ν t) :
+    (∀ g ev', makeCounterfactualGraph ordf G ev = .ok (g, some ev') → probEvent M ν ev' = probEvent M ν ev) ∧
+    (∀ g, makeCounterfactualGraph ordf G ev = .ok (g, none) → probEvent M ν ev = 0) := by
+  have hinv : SemInv M ν ev (loopResult ordf G ev topo) := by
+    unfold loopResult
+    rw [mergeLoop_eq]
+    exact semInv_runPairs M ν hν ev _ (allPairs_ne _ hws hwne topo) _
+      ⟨fun _ => Iff.rfl, hnd, hwf⟩ hL
+  constructor
+  · intro g ev' h
+    obtain ⟨topo', cf', anc, ht, hl, _, _⟩ := cg_some_shape h
+    rw [htopo] at ht
+    cases ht
+    rw [hl] at hinv
+    exact probEvent_congr M ν ev' ev hinv.1
+  · intro g h
+    obtain ⟨topo', ht, hl⟩ := cg_none_shape h
+    rw [htopo] at ht
+    cases ht
+    rw [hl] at hinv
+    exact hinv
+
+/-- the side conditions of `cg_prob_partial` on the worlds hold for the identity order (hence for every permutation of it) -/
+theorem extractInterventions_ok (vs : List Var) :
+    (extractInterventions vs).Nodup ∧ ∀ w ∈ extractInterventions vs, w ≠ [] := by
+  unfold extractInterventions
+  refine ⟨nodup_dedup' _, ?_⟩
+  intro w hw
+  rw [mem_dedup'] at hw
+  simp only [List.mem_map, List.mem_filter] at hw
+  obtain ⟨v, ⟨_, hv⟩, rfl⟩ := hw
+  simp only [Var.isCf, Bool.not_eq_eq_eq_not, Bool.not_true, List.isEmpty_eq_false_iff] at hv
+  exact hv
+
+/-! ## 4. non-vacuity: concrete runs of the model (kernel-evaluated) -/
+
+namespace Example
+/-- `B → A` (names: `A = 0`, `B = 1`) -/
+def gBA : MG Name := MG.fromEdges [0, 1] [(1, 0)] []
+def A : Var := Var.plain 0
+def B : Var := Var.plain 1
+def A_b : Var := { name := 0, ivs := [⟨1, false⟩] }
+
+def isInconsistentResult : Except Err (MG Var × Option Event) → Bool
+  | .ok (_, none) => true
+  | _ => false
+
+/-- `A_b = a ∧ A = a' ∧ B = b` is reported inconsistent (the witness of `cg_inconsistent_has_witness` exists) -/
+example : isInconsistentResult
+    (makeCounterfactualGraph sortWorlds gBA [(A_b, ⟨0, false⟩), (A, ⟨0, true⟩), (B, ⟨1, false⟩)]) = true := by decide
+
+/-- `A_b = a ∧ B = b`: `A_b` is merged into `A`; the result is the graph `B → A` with the relabelled event `A = a ∧ B = b`
+(hypotheses of `cg_event_in_nodes`, `cg_is_ancestral`, `cg_acyclic` are satisfiable) -/
+example : (match makeCounterfactualGraph sortWorlds gBA [(A_b, ⟨0, false⟩), (B, ⟨1, false⟩)] with
+    | .ok (g, some ev') => decide (g.nodes.length = 2) && decide (ev'.keys = [B, A]) && decide (g.di = [(B, A)])
+    | _ => false) = true := by decide
+
+/-- the witness of the `fix:` ce3041e: `A_b = a ∧ B = b ∧ B_b = b` keeps the self-intervened event variable `B_b` -/
+example : (match makeCounterfactualGraph sortWorlds gBA
+      [(A_b, ⟨0, false⟩), (B, ⟨1, false⟩), ({ name := 1, ivs := [⟨1, false⟩] }, ⟨1, false⟩)] with
+    | .ok (g, some ev') => ev'.keys.all (fun k => elem' k g.nodes)
+    | _ => false) = true := by decide
+
+/-- a cyclic input is the error case of `cg_error_iff_cyclic` -/
+example : (match makeCounterfactualGraph sortWorlds (MG.fromEdges [] [(0, 1), (1, 0)] []) [(A_b, ⟨0, false⟩)] with
+    | .error (.internal "NetworkXUnfeasible") => true
+    | _ => false) = true := by decide
+end Example
 
 end Y0.Cf
